@@ -147,6 +147,8 @@ pub fn panic_props(op: &'static str, failed_ever: bool) -> Vec<&'static str> {
     match op {
         "result" | "drop" => p.push("C12"),
         "new" | "reset" | "supports" | "validate" => p.push("C08"),
+        // a configuration that new / reset accepted must really encode and decode (C08's last clause)
+        "add" | "encode" | "decode" => p.push("C08"),
         "oneshot" => p.push("C10"),
         _ => {}
     }
